@@ -17,10 +17,19 @@
                             lazily (an ill-formed body raises KeyError/ValueError when -- and only if -- some object
                             instantiates it)
    Conclusion: the answer IS [holds], except that there is no answer (ZeroDivisionError) exactly when [fdiv0].
-   Nothing is assumed about types of arguments, about the state, or about the object table. *)
+   Nothing is assumed about types of arguments, about the state, or about the object table.
+
+   Round 3 -- where Model.Exec is NOT the code (finding D07, open): the library stores and looks up a grounded fluent under
+   its name followed by the FIRST OCCURRENCES of its arguments, Model.Exec (and PDDL) under the full argument list.
+   Model.KeyedState.code_state s is the state as the library sees it (every fluent carries the value stored last under its
+   key); the correspondence evaluates is_applicable on that view for worlds with functions of arity >= 3.
+     C02_keyed_view_exact   the view gives a fluent its own value whenever the fluents sharing its key share its value;
+     C02_keyed_small_arity  applications of one arity <= 2 never share a key (so for functions of arity <= 2 the view IS the
+                            state, and C02_applicable describes the code);
+     C02_keyed_refuted      arity 3, call (act o1 o2 o1): the code answers false on a state where the precondition is true. *)
 From Coq Require Import List String Bool PrimFloat.
-From Verif Require Import Base.Result Base.Str Base.PyDict Model.Types Model.Domain Model.Exec Spec.Pddl Spec.Subst
-  Proofs.C02_Sub Proofs.C20_Defs Proofs.C20_Subst Proofs.C02_Eval Proofs.C02_Main.
+From Verif Require Import Base.Result Base.Str Base.PyDict Model.Types Model.Domain Model.Exec Model.KeyedState
+  Spec.Pddl Spec.Subst Proofs.C02_Sub Proofs.C20_Defs Proofs.C20_Subst Proofs.C02_Eval Proofs.C02_Main Proofs.C02_Keyed.
 Import ListNotations.
 
 (* the library's subtype test is the spec's, on any table (so 'forall' ranges over the quantified type and its subtypes) *)
@@ -101,6 +110,26 @@ Theorem C02_shadow_refuted :
     holds eps (d_types d) objs (combine (dkeys (ma_sig a)) args) s phi = true.
 Proof. exact C02_shadow_refuted_lemma. Qed.
 
+
+(* ---------- the library's name-keyed view of the fluents (finding D07) ---------- *)
+Theorem C02_keyed_view_exact : forall (fl : list (atom * float)) (a : atom) (v : float),
+  fluent_get a fl = Some v ->
+  (forall b w, In (b, w) fl -> keyed b = keyed a -> w = v) ->
+  fluent_get a (fluents (code_state {| facts := []; fluents := fl |})) = Some v.
+Proof. exact keyed_view_exact. Qed.
+
+Theorem C02_keyed_small_arity : forall a b : atom,
+  List.length (snd a) = List.length (snd b) -> List.length (snd a) <= 2 -> keyed a = keyed b -> a = b.
+Proof. exact keyed_inj_small. Qed.
+
+Theorem C02_keyed_refuted :
+  denote_pre (ma_pre k_act) = Some k_phi /\
+  (exists ga, ground_action k_dom k_act ["o1"; "o2"; "o1"] = Ok ga /\
+              is_applicable k_dom k_eps (Some k_objs) ga (code_state k_state) = Ok false /\
+              is_applicable k_dom k_eps (Some k_objs) ga k_state = Ok true) /\
+  holds k_eps (d_types k_dom) k_objs (combine (dkeys (ma_sig k_act)) ["o1"; "o2"; "o1"]) k_state k_phi = true.
+Proof. exact keyed_refuted_lemma. Qed.
+
 Print Assumptions C02_subtype.
 Print Assumptions C02_applicable.
 Print Assumptions C02_applicable_spec.
@@ -110,3 +139,6 @@ Print Assumptions C02_eval_g_some.
 Print Assumptions C02_eval_g_none.
 Print Assumptions C02_eval_none_refuted.
 Print Assumptions C02_shadow_refuted.
+Print Assumptions C02_keyed_view_exact.
+Print Assumptions C02_keyed_small_arity.
+Print Assumptions C02_keyed_refuted.
